@@ -8,6 +8,9 @@
     monm <wire-ev>* | <res>*
         the same with clause (X′): an exchange is tx (rx)+ owned by one thread (bridged targets: acknowledgement(s), then
         the wrapped reply)  -> ok | bad X=… S=… O=… C=…
+    whole <wire-ev>* | <call>*
+        clause (W): the datagrams of one call (request + retransmissions) are consecutive datagrams of the log, sent by
+        the calling thread -> 0 | 1          call ::= tid:serial,serial,…
     rq <wire-ev>*
         clause (Q): consecutive transmissions carry different IPMB request sequence numbers -> 0 | 1
     run <xl> <nextSeq> <sessSeq> <calls:cmd>,<calls:cmd>,… <ka ticks|-> <closer tid|-> <join 0|1> <seqLocked 0|1>
@@ -45,6 +48,11 @@ def parseRes (s : String) : Option Res :=
   | [a, b, c] => do
     let g ← if c == "-" then some none else c.toNat?.map some
     pure ⟨← a.toNat?, ← b.toNat?, g⟩
+  | _ => none
+
+def parseCall (s : String) : Option Call :=
+  match s.splitOn ":" with
+  | [a, b] => do pure ⟨← a.toNat?, ← (b.splitOn ",").mapM (·.toNat?)⟩
   | _ => none
 
 def showRes (r : Res) : String :=
@@ -118,6 +126,11 @@ def handleC14 (line : String) : String :=
     | some wire, some rs =>
       if acceptsMulti wire rs then "ok"
       else s!"bad X={b01 (exchangesOkMulti wire)} S={b01 (seqIncreasing wire)} O={b01 (ownReply wire rs)} C={b01 (closeLast wire)}"
+    | _, _ => "bad-op"
+  | "whole" :: rest =>
+    let (w, c) := splitBar rest
+    match w.mapM parseWEv, c.mapM parseCall with
+    | some wire, some cs => b01 (wholeExchanges wire cs)
     | _, _ => "bad-op"
   | "rq" :: w =>
     match w.mapM parseWEv with
